@@ -699,7 +699,14 @@ def build_cases(shape, devs, policy):
         return {"dropped": "generator_model_mismatch"}
     key0 = R0.key()
 
+    stem_dir = pp.join(pp.dirname(ROOT), ROOT_STEM)
+    had_stem_dir = Fs(base_files, dirs).isdir(stem_dir)
+
     def valid(extra):
+        # whether the root has a sibling directory named like its stem is an axis of its own
+        # (root=dirA / dirB): a decoy never creates that directory
+        if not had_stem_dir and any((c + "/").startswith(stem_dir + "/") for c in extra):
+            return False
         R = resolve(asts, base_files | set(extra), dirs)
         return R.key() == key0
 
@@ -711,7 +718,7 @@ def build_cases(shape, devs, policy):
             allset.append(c)
     variants = [("all", allset)]
     if policy == "full":
-        variants = [("none", [])] + variants + [("one:" + c, [c]) for c in singles]
+        variants = [("none", [])] + [("one:" + c, [c]) for c in singles] + variants
     cases = []
     for vi, (vname, decoys) in enumerate(variants):
         a2 = dict(asts)
@@ -740,7 +747,7 @@ def build_cases(shape, devs, policy):
             "id": case_id(shape, devs, vname), "files": files, "dirs": dirs, "root": ROOT, "mode": mode,
             "expect": E, "roles": r2, "fn_names": {p: a["fn"] for p, a in a2.items()},
             "features": T["features"], "nontrivial": nontrivial, "n_decoys": n_dec,
-            "n_real": len(T["roles"]), "sample": vi == (1 if policy == "full" else 0) and len(devs) >= 1,
+            "n_real": len(T["roles"]), "sample": vname == "all" and len(devs) >= 1,
         })
     return {"cases": cases}
 
@@ -862,11 +869,12 @@ def enumerate_plans(tier, lvl, failing_singles, run=None):
     for shape in lvl["shapes"]:
         A = alphabet(shape, tier)
         sid = "S" + ".".join(map(str, shape))
-        bad = failing_singles.get(sid, set())
+        bad = failing_singles.get(sid, [])
         for devs in itertools.combinations(A, lvl["k"]):
             if not compatible(devs):
                 continue
-            if lvl["k"] >= 2 and any(dev_str(d) in bad for d in devs):
+            ds = frozenset(dev_str(d) for d in devs)
+            if lvl["k"] >= 2 and any(b < ds for b in bad):
                 if run is not None:
                     run.count("pruned_supersets_of_failing_singles")
                 continue
